@@ -24,6 +24,8 @@ def seqs(rng, n):
         "blocks": [(i // 7) % 3 for i in range(n)], "random": [rng.choice([0, 1, 2]) for _ in range(n)],
         "3b+trans": [0] * (n - 4) + [2] * 4, "trans+3b": [2] * 3 + [0] * (n - 3), "3a+trans": [1] * (n - 5) + [2] * 5,
         "single3a": [0] * (n // 2) + [1] + [0] * (n - n // 2 - 1), "cycle012": [i % 3 for i in range(n)],
+        # 3a for most of the pass (daytime), a transition, then 3b
+        "mostly3a": [1] * (3 * n // 4 - 2) + [2] * 2 + [0] * (n - 3 * n // 4),
     }
     return out
 
@@ -51,6 +53,10 @@ def run(res, tier, seed):
 
         def chans(sw, hi=None):
             lines = l1b.default_lines(fmt, n, start, counts=wb, switch=sw, first=first)
+            for i_, l_ in enumerate(lines):
+                if sw[i_] != 0:         # while 3a is on (or in transition) the channel-3 calibration views do not see the 3b detector
+                    l_["ict"] = [0 if j % 3 == 0 else v for j, v in enumerate(l_["ict"])]
+                    l_["space"] = [40 if j % 5 == 2 else v for j, v in enumerate(l_["space"])]
             for idx in (5, n - 7):       # internal-target drop-outs of the channel-3 view on two lines: telemetry, not channel selection
                 lines[idx]["ict"] = [0 if j % 3 == 0 else v for j, v in enumerate(lines[idx]["ict"])]
             if hi:
@@ -65,9 +71,9 @@ def run(res, tier, seed):
             res.violations.append(("reference pass raised %r" % (e,), dict(fmt=fmt, spacecraft=sc)))
             continue
         allseq = seqs(rng, n)
-        names = list(allseq) if tier == "thorough" or fmt == "gac_klm" else ["alternating", "random", "3b+trans", "all3a"]
+        names = list(allseq) if tier == "thorough" or fmt == "gac_klm" else ["alternating", "random", "3b+trans", "all3a", "mostly3a"]
         if n > 1000:
-            names = ["random", "3b+trans"]
+            names = ["random", "3b+trans", "mostly3a"]
         for name in names:
             sw = allseq[name]
             hi = [rng.getrandbits(16) & 0xFFFC for _ in range(n)]
